@@ -129,10 +129,22 @@ def check_estimate_x(P, R):
                     ge = n.args[0]
                     if len(ge.generators) == 1 and isinstance(ge.generators[0].iter, ast.Name) and ge.generators[0].iter.id == x and isinstance(ge.elt, ast.Attribute) and ge.elt.attr == fld and not ge.generators[0].ifs:
                         found = True
-                if isinstance(n, (ast.For,)) and isinstance(n.iter, ast.Name) and n.iter.id == x:
+                if isinstance(n, (ast.For,)) and isinstance(n.iter, ast.Name) and n.iter.id == x and isinstance(n.target, ast.Name):
                     for st, t, v, k in stores(n):
-                        if k == "aug" and isinstance(v, ast.Attribute) and v.attr == fld:
+                        if k == "aug" and isinstance(st.op, ast.Add) and isinstance(v, ast.Attribute) and v.attr == fld:
                             found = True
+                        # acc = acc + s.fld  (out-of-place accumulation)
+                        if k == "assign" and isinstance(t, ast.Name) and isinstance(v, ast.BinOp) and isinstance(v.op, ast.Add):
+                            sides = [v.left, v.right]
+                            if any(isinstance(s_, ast.Name) and s_.id == t.id for s_ in sides) and any(isinstance(s_, ast.Attribute) and s_.attr == fld and isinstance(s_.value, ast.Name) and s_.value.id == n.target.id for s_ in sides):
+                                found = True
+            # the pooled counts may also be handed in by the caller (optional parameter), computed there over the whole probe
+            if not found and fld == "n":
+                from .C07 import _param_arg_atoms
+                for pn in g.value_params[1:]:
+                    got = _param_arg_atoms(P, g, pn)
+                    if got and any(a.endswith("[*].n") for a in got):
+                        found = True
             R.check(found, "COVER.pool-x", g.key, f"sum of .{fld} over all of {x}", "pooled over every session", f".{fld} is not summed over every statistics object of the probe")
 
 
